@@ -279,6 +279,10 @@ func (n *server) handleCallReq(req p2pRequest) (c *client) {
 	}
 
 	c = newClient(n.id, fd, n.peersFeed, true)
+	// handleCallReq runs inside callHandler's loop: a peer that accepts the connection
+	// and never sends its ID must not block it (and with it every later request) for ever.
+	// Give the handshake the 2 seconds the accepting side allows.
+	fd.SetDeadline(time.Now().Add(2 * time.Second))
 	errc := c.handShake(req.ctx)
 	for err = range errc {
 		err = &P2PError{err: errors.Errorf("server handleCallReq: %w", err), t: time.Now()}
@@ -292,7 +296,9 @@ func (n *server) handleCallReq(req p2pRequest) (c *client) {
 			n.logger.Error(err)
 		}
 		c = nil
+		return
 	}
+	fd.SetDeadline(time.Time{})
 	return
 }
 
